@@ -6,7 +6,7 @@ from ..bfs import APIS, CtxCheck
 from ..ctxuniverse import KEYS, LOOKUPS, Universe
 
 BAD = ("none-value", "empty-name", "space-name", "bad-types", "bad-types-seq", "bad-td", "bad-td-multi", "bad-td-zero", "bad-td-empty",
-       "f-empty-name", "f-dot-name", "f-none-type", "f-no-types")
+       "f-empty-name", "f-dot-name", "f-none-type", "f-no-types", "nl-name", "f-nl-name")
 
 
 def nth(u: Universe, idx: int, what: str, key: str) -> int:
